@@ -91,7 +91,77 @@ def mk_input(c):
     if c.get('form') == 'list':
         return [list(map(int, row)) for row in c['a']] if not is3(c['a']) else \
             [[list(map(int, row)) for row in sl] for sl in c['a']]
-    return with_layout(nparr(c['a'], c.get('dtype')), c.get('layout'))
+    return with_container(with_layout(nparr(c['a'], c.get('dtype')), c.get('layout')), c.get('container'))
+
+
+class MetaArray(np.ndarray):
+    """an ndarray subclass that only carries metadata along"""
+    def __new__(cls, data, info=None):
+        obj = np.asarray(data).view(cls)
+        obj.info = info
+        return obj
+
+    def __array_finalize__(self, obj):
+        self.info = getattr(obj, 'info', None)
+
+
+CONTAINERS = ('matrix', 'masked', 'masked_some', 'subclass', 'memmap')
+_MEMMAPS = []
+
+
+def some_mask(shape):
+    idx = np.indices(shape).sum(axis=0)
+    return idx % 3 == 1
+
+
+def with_container(x, kind):
+    """the same data handed over as an ndarray SUBCLASS (legal array_like input): np.matrix, a masked array with
+    nothing / with something masked, a metadata-carrying subclass, a memory map.  Every helper must return what it
+    returns for the plain ndarray with the same data (np.asarray semantics) and leave the caller's object alone."""
+    if kind is None:
+        return x
+    if kind == 'matrix':
+        return np.asmatrix(x) if x.ndim == 2 else MetaArray(x, info='cube')
+    if kind == 'masked':
+        return np.ma.masked_array(x)
+    if kind == 'masked_some':
+        return np.ma.masked_array(x, mask=some_mask(x.shape))
+    if kind == 'subclass':
+        return MetaArray(x, info={'unit': 'm'})
+    if kind == 'memmap':
+        import tempfile
+        f = tempfile.NamedTemporaryFile(prefix='lv-c20-', suffix='.dat')
+        mm = np.memmap(f, dtype=x.dtype, mode='w+', shape=x.shape if x.size else (1,))
+        if x.size:
+            mm[...] = x
+        else:
+            return x
+        _MEMMAPS.append(f)
+        del _MEMMAPS[:-4]
+        return mm
+    raise ValueError(kind)
+
+
+def flag(c, v):
+    """a boolean option in the case's spelling: the Python singleton (default), a numpy bool, or 0 / 1"""
+    f = c.get('flagform')
+    if f == 'np':
+        return np.bool_(v)
+    if f == 'int':
+        return int(v)
+    return bool(v)
+
+
+def scaled(c):
+    """the case with its data multiplied by 2**scale2 (exact in binary64): tiny / huge amplitudes"""
+    e = c.get('scale2')
+    if e is None or 'a' not in c:
+        return c
+    k = Fraction(2) ** e
+    a = c['a']
+    a2 = [[[Fraction(v) * k for v in row] for row in sl] for sl in a] if is3(a) else \
+        [[Fraction(v) * k for v in row] for row in a]
+    return dict(c, a=a2)
 
 
 LAYOUTS = ('F', 'T', 'strided', 'neg', 'swap', 'ro', 'offset')
@@ -143,7 +213,11 @@ def unchanged(x, c):
     """the caller's array still holds the case's values after the call"""
     if isinstance(x, list):
         return x == mk_input(c)
-    return bool(np.array_equal(x, nparr(c['a'], c.get('dtype'))))
+    ref = nparr(c['a'], c.get('dtype'))
+    if isinstance(x, np.ma.MaskedArray):
+        want = some_mask(ref.shape) if c.get('container') == 'masked_some' else np.zeros(ref.shape, dtype=bool)
+        return bool(np.array_equal(np.ma.getdata(x), ref) and np.array_equal(np.ma.getmaskarray(x), want))
+    return bool(np.array_equal(np.asarray(x), ref))
 
 
 def fresh_lentil():
@@ -503,6 +577,11 @@ def gen_histories(rng, n, maxn):
                 d = dict(draws[0])
                 d['shift'] = [str(rng.randint(-3, 3)), str(rng.randint(1, 4))]
                 draws.append(d)
+            elif rng.random() < 0.5:     # ... or varied past the 6th decimal only (2**-24 is exact in binary64)
+                d = dict(draws[-1])
+                d['shift'] = [str(Fraction(d['shift'][0]) + Fraction(1, 2 ** 24)), d['shift'][1]]
+                d['aa'] = True
+                draws.append(d)
         yield {'op': 'shist', 'shape': shape, 'draws': draws}
 
 
@@ -564,6 +643,84 @@ def gen_layouts(rng, n):
             yield dict({'op': 'rebin', 'a': a, 'f': f}, **extra)
 
 
+def gen_containers(rng, n):
+    """every geometry helper on ndarray subclasses (np.matrix, masked arrays, a metadata subclass, np.memmap) and on
+    data scaled over many decades (no absolute threshold may enter: centroid is scale free, the others linear)"""
+    ops = ('boundary', 'bslice', 'centroid', 'pad', 'subarray', 'window', 'rebin', 'pad3', 'rebin3', 'window3')
+    for k in range(n):
+        kind = CONTAINERS[k % len(CONTAINERS)]
+        op = ops[(k // len(CONTAINERS)) % len(ops)]
+        n_, m_ = rng.randint(1, 6), rng.randint(2, 7)
+        if n_ == m_:
+            m_ += 1
+        extra = {'container': kind}
+        if rng.random() < 0.3:
+            extra['dtype'] = rng.choice(['float32', 'int32', 'uint8', 'bool'])
+        dt = extra.get('dtype')
+
+        def arr(nonneg=False):
+            return rnd_arr_dt(rng, n_, m_, dt, nonneg=nonneg) if dt else rnd_arr(rng, n_, m_, 0 if nonneg else -4, 9)
+        if op in ('boundary', 'bslice'):
+            hi = DTYPES[dt][1] if dt else 5
+            a = [[(v and (hi if v % 2 else 1)) for v in row] for row in rnd_support(rng, n_, m_)]
+            if op == 'boundary':
+                yield dict({'op': 'boundary', 'a': a, 'thr': '0'}, **extra)
+            else:
+                yield dict({'op': 'bslice', 'a': a, 'thr': '0', 'pad': [rng.randint(0, 1), rng.randint(0, 2)]}, **extra)
+        elif op == 'centroid':
+            a = arr(nonneg=True)
+            a[rng.randrange(n_)][rng.randrange(m_)] = 1
+            yield dict({'op': 'centroid', 'a': a}, **extra)
+        elif op == 'pad':
+            yield dict({'op': 'pad', 'a': arr(), 'shape': [rng.randint(1, 8), rng.randint(1, 8)]}, **extra)
+        elif op == 'pad3':
+            yield dict({'op': 'pad', 'a': [arr() for _ in range(2)], 'shape': [rng.randint(1, 8), rng.randint(1, 8)]},
+                       **extra)
+        elif op == 'subarray':
+            yield dict({'op': 'subarray', 'a': arr(), 'shape': [rng.randint(1, n_), rng.randint(1, m_)], 'shift': [0, 0]},
+                       **extra)
+        elif op == 'window':
+            r0, r1 = sorted((rng.randint(0, n_), rng.randint(0, n_)))
+            c0, c1 = sorted((rng.randint(0, m_), rng.randint(0, m_)))
+            yield dict({'op': 'window', 'a': arr(), 'shape': None, 'slice': [r0, r1, c0, c1]}, **extra)
+        elif op == 'window3':
+            yield dict({'op': 'window', 'a': [arr() for _ in range(2)], 'shape': [rng.randint(1, 7), rng.randint(1, 7)],
+                        'slice': None}, **extra)
+        else:
+            f = rng.randint(1, 3)
+            n_, m_ = f * rng.randint(1, 3), f * rng.randint(1, 3)
+            a = [arr() for _ in range(2)] if op == 'rebin3' else arr()
+            yield dict({'op': 'rebin', 'a': a, 'f': f}, **extra)
+    for k in range(max(10, n // 5)):
+        e = rng.choice([-43, -40, -33, -27, 30, 45])
+        n_, m_ = rng.randint(1, 5), rng.randint(2, 6)
+        u = k % 5
+        if u == 0:
+            a = rnd_arr(rng, n_, m_, 0, 9)
+            a[0][0] += 1
+            yield {'op': 'centroid', 'a': a, 'scale2': e}
+        elif u == 1:
+            yield {'op': 'boundary', 'a': rnd_support(rng, n_, m_), 'thr': '0', 'scale2': e}
+        elif u == 2:
+            yield {'op': 'bslice', 'a': rnd_support(rng, n_, m_), 'thr': '0', 'pad': [1, 0], 'scale2': e}
+        elif u == 3:
+            yield {'op': 'rebin', 'a': rnd_arr(rng, 2 * n_, 2 * m_), 'f': 2, 'scale2': e}
+        else:
+            yield {'op': 'pad', 'a': rnd_arr(rng, n_, m_), 'shape': [rng.randint(1, 7), rng.randint(1, 7)], 'scale2': e}
+
+
+def gen_flags(rng, n):
+    """boolean options spelled as numpy bools or as 0 / 1 (truthy, but not the singleton True)"""
+    k = 0
+    for c in gen_hexseg(rng, n // 3, 2):
+        k += 1
+        c['rotate'] = bool(k % 2) if k > 2 else True
+        yield dict(c, flagform='np' if k % 2 else 'int')
+    for c in gen_shapes(rng, n - n // 3, 14):
+        k += 1
+        yield dict(c, flagform='np' if k % 2 else 'int')
+
+
 def cube_of(d, n, m, base=1):
     return [[[base + (k * n + i) * m + j for j in range(m)] for i in range(n)] for k in range(d)]
 
@@ -608,6 +765,8 @@ def generate(rng, tier):
         yield from gen_dtypes(rng, 210)
         yield from gen_window_cubes(rng, 90)
         yield from gen_layouts(rng, 231)
+        yield from gen_containers(rng, 200)
+        yield from gen_flags(rng, 36)
         yield from gen_shapes(rng, 150, 16)
         yield from gen_histories(rng, 40, 20)
         yield from gen_hexseg(rng, 14, 3)
@@ -617,6 +776,8 @@ def generate(rng, tier):
         yield from gen_dtypes(rng, 2100)
         yield from gen_window_cubes(rng, 600)
         yield from gen_layouts(rng, 2310)
+        yield from gen_containers(rng, 2000)
+        yield from gen_flags(rng, 300)
         yield from gen_window_cubes_exhaustive()
         yield from gen_shapes(rng, 900, 24)
         yield from gen_histories(rng, 300, 24)
@@ -629,6 +790,12 @@ def classify(c):
         op = op + '3'
     if c.get('dtype'):
         return f'{op}:{c["dtype"]}'
+    if c.get('container'):
+        return f'{op}:{c["container"]}'
+    if c.get('flagform'):
+        return f'{op}:flag-{c["flagform"]}'
+    if c.get('scale2') is not None:
+        return f'{op}:scaled'
     if c.get('layout'):
         return f'{op}:layout-{c["layout"]}'
     if c.get('form') or c.get('argform'):
@@ -657,6 +824,7 @@ def nontrivial(c):
 
 # ------------------------------------------------------------------ model side
 def encode(c):
+    c = scaled(c)
     op = c['op']
     if op == 'pad':
         if is3(c['a']):
@@ -760,6 +928,7 @@ def decode(c, ints):
 
 # ------------------------------------------------------------------ implementation side
 def run_impl(c):
+    c = scaled(c)
     lentil = C.import_lentil()
     op = c['op']
     try:
@@ -818,13 +987,15 @@ def run_impl(c):
             return {'arr': tolist(draw(lentil, c, sh)), 'arr_shift': tolist(draw(lentil, c, sh2))}
         if op == 'hexseg':
             kw = dict(rings=c['rings'], seg_radius=float(Fraction(c['radius'])), seg_gap=float(Fraction(c['gap'])),
-                      rotate=c['rotate'], flatten=False, pad=c['pad'], drop=tuple(c['drop']))
-            m = np.asarray(lentil.hex_segments(antialias=c['aa'], **kw), dtype=float)
-            mb = m if not c['aa'] else np.asarray(lentil.hex_segments(antialias=False, **kw), dtype=float)
+                      rotate=flag(c, c['rotate']), flatten=flag(c, False), pad=c['pad'], drop=tuple(c['drop']))
+            m = np.asarray(lentil.hex_segments(antialias=flag(c, c['aa']), **kw), dtype=float)
+            mb = m if not c['aa'] else np.asarray(lentil.hex_segments(antialias=flag(c, False), **kw), dtype=float)
             out = {'shape': list(m.shape), '_mask': Blob(m)}
             if mb.ndim == 3 and mb.shape[0]:
                 cover = mb.sum(axis=0)
                 out['overlap'] = int((cover > 1).sum())
+                out['overlap_max_cover'] = int(cover.max())
+                out['overlap_depth'] = overlap_depth(c, mb, cover)
                 out['binary'] = bool(np.all((mb == 0) | (mb == 1)))
                 out['areas'] = [float(v) for v in m.reshape(m.shape[0], -1).sum(axis=1)]
                 out['border'] = float(max(np.abs(m[:, 0, :]).max(), np.abs(m[:, -1, :]).max(),
@@ -860,6 +1031,49 @@ def run_history(c):
     return {'hist': hist, 'fresh': fresh, 'centred': centred}
 
 
+def hex_centres(c):
+    """(row, col) centres of the kept segments, recomputed with plain loops from the lattice walk of the property
+    (centre, then ring by ring, six sides of r steps starting at (-r, r)); independent of lentil and of the model"""
+    s3 = math.sqrt(3.0)
+    rad = float(Fraction(c['radius'])) + float(Fraction(c['gap'])) / 2
+    pts = [(0, 0)]
+    for ring in range(1, c['rings'] + 1):
+        q, r = -ring, ring
+        for dq, dr in ((1, 0), (1, -1), (0, -1), (-1, 0), (-1, 1), (0, 1)):
+            for _ in range(ring):
+                pts.append((q, r))
+                q, r = q + dq, r + dr
+    out = []
+    for seg, (q, r) in enumerate(pts):
+        if seg in c['drop']:
+            continue
+        if c['rotate']:
+            x, y = rad * (s3 * q + s3 / 2 * r), rad * (1.5 * r)
+        else:
+            x, y = rad * (1.5 * q), rad * (s3 / 2 * q + s3 * r)
+        out.append((-y, x))
+    return out
+
+
+def overlap_depth(c, mb, cover):
+    """how far inside a hexagon (in samples, measured with the lattice centres above) the deepest doubly covered
+    sample lies: ~0 for samples ON a common edge (the recorded seg_gap = 0 design fact), clearly positive for real
+    overlap.  None when the masks cannot be matched to the lattice."""
+    cen = hex_centres(c)
+    if len(cen) != mb.shape[0] or not (cover > 1).any():
+        return None
+    inner = float(Fraction(c['radius'])) * math.sqrt(3.0) / 2
+    ci, cj = mb.shape[1] // 2, mb.shape[2] // 2
+    worst = 0.0
+    for i, j in np.argwhere(cover > 1):
+        depths = []
+        for k in np.nonzero(mb[:, i, j])[0]:
+            rr, cc = i - ci - cen[k][0], j - cj - cen[k][1]
+            depths.append(inner - max(rr * sn + cc * cs for sn, cs in hex_normals(c['rotate'])))
+        worst = max(worst, min(depths))
+    return float(worst)
+
+
 class Blob:
     """keeps a big array out of evidence / replay files"""
     def __init__(self, a):
@@ -872,12 +1086,12 @@ class Blob:
 def draw(lentil, c, sh):
     op = c['op']
     if op == 'circle':
-        return lentil.circle(tuple(c['shape']), float(Fraction(c['radius'])), shift=sh, antialias=c['aa'])
+        return lentil.circle(tuple(c['shape']), float(Fraction(c['radius'])), shift=sh, antialias=flag(c, c['aa']))
     if op == 'rect':
         return lentil.rectangle(tuple(c['shape']), float(Fraction(c['width'])), float(Fraction(c['height'])),
-                                shift=sh, angle=float(Fraction(c['angle'])), antialias=c['aa'])
-    return lentil.hexagon(tuple(c['shape']), float(Fraction(c['radius'])), shift=sh, rotate=c['rotate'],
-                          antialias=c['aa'])
+                                shift=sh, angle=float(Fraction(c['angle'])), antialias=flag(c, c['aa']))
+    return lentil.hexagon(tuple(c['shape']), float(Fraction(c['radius'])), shift=sh, rotate=flag(c, c['rotate']),
+                          antialias=flag(c, c['aa']))
 
 
 def edge_margin(c, shape, sh):
@@ -1010,6 +1224,7 @@ def pad_oracle_2d(a, out, N, M):
 
 
 def oracle(c, impl):
+    c = scaled(c)
     op = c['op']
     if impl.get('mutated'):
         return f'{op} modified the array it was given'
@@ -1318,6 +1533,7 @@ def hexseg_oracle(c, impl):
 
 
 def known_match(f, c, impl):
+    c = scaled(c)
     if f['id'] == 'C20-window-slice-cube-axes':
         # exactly: a cube, slice= given, and the result is the numpy slice of the LEADING two axes
         if not (c['op'] == 'window' and is3(c['a']) and c['slice'] is not None and 'err' not in impl):
@@ -1327,9 +1543,12 @@ def known_match(f, c, impl):
         got = np.array(impl['arr'], dtype=float).reshape(impl['shape'])
         return got.shape == lead.shape and bool(np.array_equal(got, lead))
     if f['id'] == 'C20-hex-gap0-shared-edge':
+        # exactly: gap 0, every multiply covered sample lies ON the common edge of its hexagons (within 1e-6 sample,
+        # measured from the lattice centres); a sample on a lattice vertex belongs to three closed hexagons
         return (c['op'] == 'hexseg' and Fraction(c['gap']) == 0 and 'err' not in impl and impl.get('overlap', 0) > 0
                 and len(impl['shape']) == 3 and impl['shape'][0] == hexseg_expected_count(c)
-                and impl.get('binary') and impl.get('range_ok'))
+                and impl.get('binary') and impl.get('range_ok') and impl.get('overlap_max_cover') in (2, 3)
+                and impl.get('overlap_depth') is not None and impl['overlap_depth'] <= 1e-6)
     return False
 
 
@@ -1376,7 +1595,62 @@ def extra(tier, rng):
                 violations.append({'case': dict(case, aa=aa), 'impl': {'areas': [float(v) for v in areas]},
                                    'what': f'test: segment areas differ by {spread} (> edge sampling {tol}) '
                                            f'or are far from the ideal {ideal}'})
+    big = large_size_tests(lentil)
+    report['large_size_tests'] = big['n']
+    violations += big['violations']
     return {'report': report, 'violations': violations}
+
+
+def large_size_tests(lentil):
+    """numeric tests on arrays with more than 2**20 samples / more than 1000 rows (vectorised index-rule references;
+    the rational model is not run at this size), and on a 0-d input of window"""
+    v = []
+    n = 0
+
+    def bad(case, impl, what):
+        v.append({'case': dict(case, op='large-size-test'), 'impl': impl, 'what': 'test: ' + what})
+    # pad: sample i -> i - n//2 + N//2 on each axis
+    for (nr, nc), (N, M) in (((1025, 1031), (1100, 1000)), ((1100, 1000), (1025, 1031)), ((1024, 1100), (1025, 1101))):
+        a = (np.arange(nr * nc, dtype=np.int64).reshape(nr, nc) % 9973) + 1
+        out = np.asarray(lentil.pad(a, (N, M)))
+        ref = np.zeros((N, M), dtype=np.int64)
+        i = np.arange(nr)
+        j = np.arange(nc)
+        ti, tj = i - nr // 2 + N // 2, j - nc // 2 + M // 2
+        ki, kj = (ti >= 0) & (ti < N), (tj >= 0) & (tj < M)
+        ref[np.ix_(ti[ki], tj[kj])] = a[np.ix_(i[ki], j[kj])]
+        n += 1
+        if out.shape != ref.shape or not np.array_equal(out, ref):
+            bad({'pad': [nr, nc], 'to': [N, M]}, {'shape': list(out.shape)}, f'pad {(nr, nc)} -> {(N, M)} breaks the floor(n/2) index rule')
+    # rebin: block sums and total
+    for (nr, nc), f in (((1026, 2052), 2), ((1026, 2052), 3), ((2048, 1024), 4)):
+        a = (np.arange(nr * nc, dtype=np.int64).reshape(nr, nc) % 251)
+        out = np.asarray(lentil.rebin(a, f))
+        ref = sum(a[u::f, w::f] for u in range(f) for w in range(f))
+        n += 1
+        if out.shape != ref.shape or not np.array_equal(out, ref) or int(out.sum()) != int(a.sum()):
+            bad({'rebin': [nr, nc], 'f': f}, {'sum': float(out.sum())}, f'rebin {(nr, nc)} by {f}: block sums / total differ')
+    # centroid of an impulse, boundary of two samples
+    for (nr, nc), (i0, j0) in (((1100, 1000), (1099, 0)), ((1000, 1100), (3, 1098)), ((1025, 1025), (512, 512))):
+        a = np.zeros((nr, nc))
+        a[i0, j0] = 3.0
+        r, c_ = lentil.centroid(a)
+        n += 1
+        if (float(r), float(c_)) != (float(i0), float(j0)):
+            bad({'centroid': [nr, nc], 'impulse': [i0, j0]}, {'rc': [float(r), float(c_)]}, 'centroid of an impulse is not its index')
+        a[nr - 1 - i0, nc - 1 - j0] = 1e-30
+        box = [int(x) for x in lentil.boundary(a)]
+        exp = [min(i0, nr - 1 - i0), max(i0, nr - 1 - i0), min(j0, nc - 1 - j0), max(j0, nc - 1 - j0)]
+        n += 1
+        if box != exp:
+            bad({'boundary': [nr, nc]}, {'box': box}, f'boundary {box} is not the bounding box {exp}')
+    # documented: a single value is returned whatever shape / slice say (0-d and 1x1)
+    for x in (np.array(5.0), np.array([[5.0]])):
+        out = np.asarray(lentil.window(x, shape=(3, 3)))
+        n += 1
+        if out.shape != x.shape or float(out.ravel()[0]) != 5.0:
+            bad({'window': 'single value', 'ndim': int(x.ndim)}, {'shape': list(out.shape)}, 'window of a single value is not that value')
+    return {'n': n, 'violations': v}
 
 
 
